@@ -39,6 +39,8 @@ func init() {
 			{ID: "C03-R7", Title: "a channel field is closed at most once", Floor: 5, Run: func(c *core.Ctx) { closeOnce(c, "") }},
 			{ID: "C03-R8", Title: "parse results tested for nil at one site are not stored untested at another", Floor: 1, Run: nilBeliefAcrossCallSites},
 			{ID: "C03-R9", Title: "no method call on the operand of a failed type assertion outside the recover boundary", Floor: 1, Run: failedAssertionOperandUse},
+			{ID: "C03-R10", Title: "lexer functions on the error-construction path index only under a length test", Floor: 1, Run: lexerIndexingGuarded},
+			{ID: "C03-R11", Title: "nil-tested fields are not dereferenced outside the test's cover", Floor: 10, Run: fieldNilBelief},
 		},
 	})
 }
